@@ -404,7 +404,9 @@ def method_args(cls_name, obj, mname, sig, R):
         "crop": [(1,)], "pad": [(1,)], "center_crop": [(tuple(s - 2 for s in size),)], "center_pad": [(tuple(s + 2 for s in size),)],
         "narrow": [(0, 1, 2)], "downsample": [(), (1,)], "upsample": [(), (1,)], "pyramid": [(2,)],
         "avg_pool": [(2,)], "pool": [(2,)], "region_of_interest": [((1,) * D, (2,) * D)],
-        "grid": [(g2,), ()], "axes": [(Axes.WORLD,), (Axes.CUBE,), ()], "sample": [(g2,)],
+        # (also a grid that differs from the receiver's in the align_corners flag only: the flag is cached by sub-modules)
+        "grid": [(g2,), (), (g2.align_corners(False),)] + ([(obj.grid().align_corners(not obj.grid().align_corners()),)]
+                                                              if isinstance(obj, torch.nn.Module) and hasattr(obj, "grid") else []), "axes": [(Axes.WORLD,), (Axes.CUBE,), ()], "sample": [(g2,)],
         "normalize": [(), ("center",), ("unit", 0.0, 1.0), ("center", -0.5, 0.5), ("unit", 0.25, 0.75)],
         "rescale": [(0, 1), (), (0, 1, 0, 1), (None, None, 0.0, 1.0)], "conv": [(torch.tensor([0.25, 0.5, 0.25]),)],
         "transform": [(), (Axes.CUBE, Axes.WORLD)], "transform_points": [(r(3, D),)], "transform_vectors": [(r(3, D),)],
@@ -465,6 +467,12 @@ def make_objects(D):
         "FlowField": lambda: FlowField(0.1 * torch.rand(D, *sp), g(), Axes.WORLD),
         "FlowFields": lambda: FlowFields(0.1 * torch.rand(2, D, *sp), [g(), g().center((0.0,) * D)], Axes.CUBE_CORNERS),
     }
+
+    # data that requires grad: DataTensor.__new__ keeps the autograd graph (the typed tensor is a non-leaf alias of the data)
+    objs["Image[grad]"] = lambda: Image((torch.rand(2, *sp) * 2.4 - 0.7).requires_grad_(True), g())
+    objs["ImageBatch[grad]"] = lambda: ImageBatch((torch.rand(2, 2, *sp) * 2.4 - 0.7).requires_grad_(True), [g(), g().center((0.0,) * D)])
+    objs["FlowField[grad]"] = lambda: FlowField((0.1 * torch.rand(D, *sp)).requires_grad_(True), g(), Axes.WORLD)
+    objs["FlowFields[grad]"] = lambda: FlowFields((0.1 * torch.rand(2, D, *sp)).requires_grad_(True), [g(), g().center((0.0,) * D)], Axes.CUBE_CORNERS)
 
     def tf(cls, kind):
         def f():
@@ -597,7 +605,7 @@ def run_deepcopies(p):
     for D in (2, 3):
         objs, sp = make_objects(D)
         for oname, factory in objs.items():
-            for how in ("deepcopy", "clone"):
+            for how in ("deepcopy", "clone", "torch.clone", "pickle"):
                 try:
                     o = factory()
                 except Exception:  # noqa  (class not available for this dimension)
@@ -607,6 +615,15 @@ def run_deepcopies(p):
                         if not hasattr(o, "clone") or isinstance(o, torch.nn.Module):
                             continue
                         c = o.clone()
+                    elif how == "torch.clone":      # function form: dispatched through __torch_function__ with func == torch.clone
+                        if not isinstance(o, Tensor):
+                            continue
+                        c = torch.clone(o)
+                    elif how == "pickle":
+                        if isinstance(o, torch.nn.Module):
+                            continue
+                        import pickle
+                        c = pickle.loads(pickle.dumps(o))
                     else:
                         c = copy.deepcopy(o)
                 except Exception as e:  # noqa
